@@ -54,6 +54,7 @@ def run(ctx):
     rule_c(ctx, cr)
     rule_def(ctx, cr)
     rule_h(ctx, cr)
+    rule_no_fastpath(ctx, cr)
     ctx.rule("C14.i", "the columns RENUM splices at are the parser's columns, which advance by the "
              "character count of each token's LISTED text (shared with C19.b): a token measured "
              "differently from how it lists shifts every later operand of the line")
@@ -378,6 +379,22 @@ def _roots_of_local(f, l, depth, seen):
         else:
             out.add(("other", d[0]))
     return out
+
+
+def rule_no_fastpath(ctx, cr):
+    """Line::renum decides `nothing to rewrite` from the visitor's result, not from a look at tokens"""
+    f = cr.need_fn("lang::line::Line::renum")
+    ctx.touch(f)
+    pr = f.calls_to("lang::parse::parse")
+    if not ctx.check(len(pr) == 1, "C14.g", "Line::renum/parses", f.span, "the line is parsed once"):
+        return
+    rets = set(f.return_blocks())
+    skipped = bool(f.reach_set(0, avoid={pr[0].bb}) & rets)
+    ctx.check(not skipped, "C14.g", "Line::renum/always-parsed", pr[0].span,
+              "every call parses the line and lets the visitor find the operands",
+              "Line::renum can return before it has parsed the line (a token-level shortcut): "
+              "operands the shortcut does not recognise - a line number above 32767 is a Single "
+              "literal, not an Integer - keep their old number while their target is renumbered")
 
 
 def rule_h(ctx, cr):
